@@ -34,7 +34,13 @@ type Priority = u32;
 fn gen_priority() -> Priority {
     RNG.with(|cell| {
         let mut rng = cell.get();
-        let priority = rng.next_raw() as Priority;
+        // The outputs of the linear congruential generator are not independent at power-of-two distances (every
+        // 2^20-th output follows a quadratic pattern), and nodes created that far apart can end up side by side in one
+        // treap: the raw output goes through the splitmix64 finaliser before it becomes a priority.
+        let mut z = rng.next_raw();
+        z = (z ^ (z >> 30)).wrapping_mul(0xBF58_476D_1CE4_E5B9);
+        z = (z ^ (z >> 27)).wrapping_mul(0x94D0_49BB_1331_11EB);
+        let priority = (z ^ (z >> 31)) as Priority;
         cell.set(rng);
         priority
     })
